@@ -587,6 +587,18 @@ def run_case(case):
         if mode == (False, False):
             res.ev('both-disabled:configured')
 
+        # every other case first asks for ONE executable by name, from the clean tree: its
+        # libraries are then built as prerequisites of that target (and under Make inherit its
+        # target-specific variables), not as members of `all`
+        single = None
+        exes_first = sorted(p for p, (i, v) in prj.outputs.items() if v == 'exe')
+        if exes_first and case.get('single_first', core.digest(case['nodes'])[0] in '01234567'):
+            one = exes_first[len(exes_first) // 2]
+            rc1, out1 = proj.build(bld, backend, targets=[one], env=env,
+                                   extra=(['-k'] if backend == 'make' else ['-k', '0']),
+                                   timeout=600)
+            res.ev('build:single-target-first')
+            single = (one, rc1, out1)
         rc, out = proj.build(bld, backend, targets=['all'], env=env,
                              extra=(['-k', '-j4'] if backend == 'make' else ['-k', '0']),
                              timeout=600)
@@ -602,6 +614,10 @@ def run_case(case):
                 violate(('versioned', 'symlink-missing-or-absolute'),
                         {'link': ln, 'real': real,
                          'target': os.readlink(full) if os.path.islink(full) else None})
+        if single and single[1] != 0 and rc == 0 and not missing:
+            # the whole project builds, the same executable asked for by name did not
+            violate(('build', 'single-target-failed', classify_build_text(single[2])),
+                    {'target': single[0], 'rc': single[1], 'output': single[2][-1200:]})
         if rc == 0 and not missing:
             res.ev('build:ok')
             res.ev('build:ok:' + backend)
